@@ -1000,7 +1000,7 @@ func tmTS(pid uint16, ds []tmDelivery) ([]byte, error) {
 }
 
 func suiteTeletextModel(R *runner, r *rng) {
-	R.rule("teletext feeder: ground-truth schedules (1..5 instances of one page in magazines 1..8, 1..4 distinct rows at 1..24, boxed text over G0 incl. the national option positions of the English/French/German sets and of option code 7, option changing between instances, colour and size codes in front of and inside the box, unboxed junk, erase pages, presentation times) x multiplexing (PES boundaries anywhere, data identifiers 0x10..0x1f, in serial and parallel mode: headers of other magazines between our rows (parallel), same page number in another magazine, terminating headers of other pages of the same magazine / of any magazine (serial) followed by rows of our magazine, pages with hexadecimal digits incl. those whose weighted sum equals our page number, stuffing / non-subtitle / wrong-framing / short units, uncorrectable and corrected Hamming bytes, rows of other magazines, X/26 X/27 X/28 M/29 X/30 X/31, time-filling headers, PES without time / with another data identifier / empty / truncated, trailing PES) x reader option (page given or auto-detected); the Coq model ttx_feed vs the hook VerifTeletextFeed on the same delivered list (all observables incl. spaces before/after), the schedule oracle on the hook's result and, for a third of the cases, on ReadFromTeletext over the astits-muxed stream; the same case re-expressed as schedule x multiplexing x PES grouping of the Coq specification: the extracted mux_ok / mux_ok_auto decides membership in the class of the stream theorems (outside it: counted, class comparison only) and the extracted cues_of must equal the implementation's result; 'wild' cases (character set designations, duplicated rows, control codes, hex page digits, non-monotone times, byte noise, truncation) and hostile payloads: model vs implementation only; non-trivial = at least one cue expected (generated) / at least one delivery (hostile)")
+	R.rule("teletext feeder: ground-truth schedules (1..5 instances of one page in magazines 1..8, 1..4 distinct rows at 1..24, boxed text over G0 incl. the national option positions of the English/French/German sets and of option code 7, option changing between instances, colour and size codes in front of and inside the box, unboxed junk, erase pages, presentation times) x multiplexing (PES boundaries anywhere, data identifiers 0x10..0x1f, in serial and parallel mode: headers of other magazines between our rows (parallel), same page number in another magazine, terminating headers of other pages of the same magazine / of any magazine (serial) followed by rows of our magazine, pages with hexadecimal digits incl. those whose weighted sum equals our page number, stuffing / non-subtitle / wrong-framing / short units, uncorrectable and corrected Hamming bytes, rows of other magazines, X/26 X/27 X/28 M/29 X/30 X/31, time-filling headers, PES without time / with another data identifier / empty / truncated, trailing PES) x reader option (page given or auto-detected); the Coq model ttx_feed vs the hook VerifTeletextFeed on the same delivered list (all observables incl. spaces before/after), the schedule oracle on the hook's result and, for a third of the cases, on ReadFromTeletext over the astits-muxed stream; the same case re-expressed as schedule x multiplexing x PES grouping of the Coq specification: incl. the PES-level noise (packets without time, foreign data identifier, empty payload, truncated last unit) and rows with 1..3 parity-damaged cells (the row's specification is then read off its stored cells); the extracted mux_ok / mux_ok_auto decides membership in the class of the stream theorems (outside it: counted, class comparison only; not submitted: a row whose only start box was destroyed) and the extracted cues_of must equal the implementation's result; 'wild' cases (character set designations, duplicated rows, control codes, hex page digits, non-monotone times, byte noise, truncation) and hostile payloads: model vs implementation only; non-trivial = at least one cue expected (generated) / at least one delivery (hostile)")
 	N, H := 900, 1500
 	if R.tier == "thorough" {
 		N, H = 12000, 20000
